@@ -152,8 +152,15 @@ func (s *Spec) Productions() []*grammar.Production {
 
 // SLRParsingTable builds and returns the SLR(1) (Simple LR) parsing table
 // for the grammar and precedences in the spec.
-func (s *Spec) SLRParsingTable() (*lr.ParsingTable, error) {
-	T, err := simple.BuildParsingTable(s.Grammar, s.Precedences)
+func (s *Spec) SLRParsingTable() (T *lr.ParsingTable, err error) {
+	// The table builder crashes on some degenerate grammars (e.g. "a = a;" or a non-terminal deriving no terminal string).
+	defer func() {
+		if r := recover(); r != nil {
+			T, err = nil, fmt.Errorf("error on building SLR(1) parsing table:\ninternal error: %v", r)
+		}
+	}()
+
+	T, err = simple.BuildParsingTable(s.Grammar, s.Precedences)
 	if err != nil {
 		return nil, fmt.Errorf("error on building SLR(1) parsing table:\n%s", err)
 	}
@@ -163,8 +170,15 @@ func (s *Spec) SLRParsingTable() (*lr.ParsingTable, error) {
 
 // LALRParsingTable builds and returns the LALR(1) (Lookahead LR) parsing table
 // for the grammar and precedences in the spec.
-func (s *Spec) LALRParsingTable() (*lr.ParsingTable, error) {
-	T, err := lookahead.BuildParsingTable(s.Grammar, s.Precedences)
+func (s *Spec) LALRParsingTable() (T *lr.ParsingTable, err error) {
+	// The table builder crashes on some degenerate grammars (e.g. "a = a;" or a non-terminal deriving no terminal string).
+	defer func() {
+		if r := recover(); r != nil {
+			T, err = nil, fmt.Errorf("error on building LALR(1) parsing table:\ninternal error: %v", r)
+		}
+	}()
+
+	T, err = lookahead.BuildParsingTable(s.Grammar, s.Precedences)
 	if err != nil {
 		return nil, fmt.Errorf("error on building LALR(1) parsing table:\n%s", err)
 	}
@@ -174,8 +188,15 @@ func (s *Spec) LALRParsingTable() (*lr.ParsingTable, error) {
 
 // GLRParsingTable builds and returns the GLR(1) (Canonical LR a.k.a. Generalized LR) parsing table
 // for the grammar and precedences in the spec.
-func (s *Spec) GLRParsingTable() (*lr.ParsingTable, error) {
-	T, err := canonical.BuildParsingTable(s.Grammar, s.Precedences)
+func (s *Spec) GLRParsingTable() (T *lr.ParsingTable, err error) {
+	// The table builder crashes on some degenerate grammars (e.g. "a = a;" or a non-terminal deriving no terminal string).
+	defer func() {
+		if r := recover(); r != nil {
+			T, err = nil, fmt.Errorf("error on building GLR(1) parsing table:\ninternal error: %v", r)
+		}
+	}()
+
+	T, err = canonical.BuildParsingTable(s.Grammar, s.Precedences)
 	if err != nil {
 		return nil, fmt.Errorf("error on building GLR(1) parsing table:\n%s", err)
 	}
